@@ -835,7 +835,7 @@ class BaseCfgLine(object):
         if indent > 0:
             insertstr = (" " * indent) + insertstr.lstrip()
         elif bool(auto_indent) is True:
-            insertstr = " " * (auto_indent_width * insertstr_parent_indent + 1) + insertstr.lstrip()
+            insertstr = " " * (insertstr_parent_indent + auto_indent_width) + insertstr.lstrip()
         else:
             # do not modify insertstr indent, or indentstr leading spaces
             pass
